@@ -244,6 +244,22 @@ func (g *c07Gen) capture(vis []string) []*mj.Node {
 	return out
 }
 
+// captureSum: the sum of two Go integers computed in one iteration is kept in an outer variable; later iterations
+// compute other sums with the same expression, the variable keeps the value it was given.
+func (g *c07Gen) captureSum() []*mj.Node {
+	first, cnt, s, i := g.id("first"), g.id("cnt"), g.id("sum"), g.id("i")
+	g.p.Vars["one"] = mj.RInt(1)
+	pick := g.n(0, 1, "sumIter")
+	op := []string{"+", "-"}[g.n(0, 1, "sumOp")]
+	g.labels["capture-sum-of-two-go-integers"] = true
+	rn := &mj.Node{K: "range", E: mj.Call("ints", mj.Num(2), mj.Num(5)), Decl: true, Names: []string{i}, Body: []*mj.Node{
+		mj.Let(s, mj.Bin(op, mj.Var(i), mj.Var("one"))),
+		mj.If(mj.Bin("==", mj.Var(cnt), mj.Num(float64(pick))), []*mj.Node{mj.Set(first, mj.Var(s))}, nil),
+		mj.Set(cnt, mj.Bin("+", mj.Var(cnt), mj.Num(1))),
+	}}
+	return []*mj.Node{mj.Let(first, mj.Num(0)), mj.Let(cnt, mj.Num(0)), rn, mj.Text("(kept sum="), mj.Print(mj.Var(first)), mj.Text(")")}
+}
+
 // captureMapElement: the value of one iteration over a map with struct (or array) elements is kept in an
 // outer variable together with its key; whatever the iteration order, the two still belong together when the
 // loop has moved on and after it has ended (a variable keeps the value it was given).
@@ -438,8 +454,10 @@ func (g *c07Gen) stmts(depth int, vis []string) []*mj.Node {
 			out = append(out, g.probes(vis)...)
 			g.labels["read-after-try"] = true
 		case k == 13:
-			if g.n(0, 2, "captureKind") == 0 {
+			if ck := g.n(0, 3, "captureKind"); ck == 0 {
 				out = append(out, g.captureMapElement()...)
+			} else if ck == 3 {
+				out = append(out, g.captureSum()...)
 			} else {
 				out = append(out, g.capture(vis)...)
 			}
